@@ -10,13 +10,33 @@ def make_files(ctx, count, small=False, kinds=None):
     cases = []
     for i in range(count):
         dt = S.ALL_DT[i % len(S.ALL_DT)] if i < len(S.ALL_DT) else rng.choice(S.ALL_DT)
-        kind = rng.choice(kinds or ["uniform", "sparse", "sparse", "cluster", "lattice", "smooth", "dups", "small", "const"])
+        kind = rng.choice(kinds or ["uniform", "sparse", "sparse", "cluster", "lattice", "smooth", "dups", "small", "const", "extremes", "width"])
         if small:
             n = rng.choice([1, 2, 3, 7, 20, 60])
         else:
             n = rng.choice([1, 5, 40, 150, 400, 1100, 1500]) if kind != "sparse" else rng.choice([50, 400, 1100, 1500, 3000])
         c = S.enc_case(rng, dt=dt, n=None if False else n, kind=kind, nchunks=rng.choice([1, 1, 2, 3]), level=rng.choice([0, 2, 6, 8, 12]))
         cases.append(c)
+    # run-length prefixes whose range holds several values (k > 0): only low effective levels with a dominant
+    # multi-value cluster produce them; a run can then be interrupted in the middle of its offsets
+    if not small:
+        for _ in range(max(2, count // 8)):
+            dt = rng.choice([d for d in S.ALL_DT if C.DTYPES[d][2] != "bool"])
+            n = rng.choice([1200, 2000, 4000])
+            base = rng.choice([100, 5000, 70000])
+            width = rng.choice([2, 4, 7])
+            frac = rng.choice([82, 85, 90, 95])
+            xs = []
+            lowshare = rng.choice([5, 10, 15])
+            for _i in range(n):
+                r = rng.below(100)
+                if r < lowshare:
+                    xs.append(G.from_signed_val(dt, base))
+                elif r < frac:
+                    xs.append(G.from_signed_val(dt, base + width - 1))
+                else:
+                    xs.append(G.from_signed_val(dt, base + 100000 + rng.below(1 << 17)))
+            cases.append({"dt": dt, "level": rng.choice([3, 3, 4]), "order": 0, "gcds": rng.below(2), "chunks": [xs], "kinds": ["wide-run"], "drain": 0})
     ans = C.harness([S.compress_line(c) for c in cases], timeout=600)
     files = []
     for c, a in zip(cases, ans):
@@ -83,6 +103,9 @@ def compare_dops(ctx, lines, impl_answers, stream="dops", sample=None, timeout=2
         a = impl_answers[i]
         ta = [(canon_tok(dt, b), k) for b, k in split_tokens(a)]
         tm = [(canon_tok(dt, b), k) for b, k in split_tokens(m)]
+        if m in ("timeout", "died"):
+            ctx.count("model-skipped(" + m + ")")
+            continue
         ctx.count("model-compared")
         if ta != tm:
             j = next((j for j in range(min(len(ta), len(tm))) if ta[j] != tm[j]), min(len(ta), len(tm)))
